@@ -74,3 +74,9 @@ assert (Kb : (-3 < k < 3)%Z) by (split; apply lt_IZR; simpl; lra).
 assert (Kr : -2 <= IZR k <= 2) by (split; apply IZR_le; lia).
 apply Rabs_le. nra.
 Qed.
+
+(* a concrete canonical remainder: the double nearest pi/4 (used by the non-vacuity examples) *)
+Lemma quarter_pi_val : R_ (of_bits 4605249457297304856) = 7074237752028440 / 9007199254740992.
+Proof. vm_compute (of_bits 4605249457297304856). unfold B2R, F2R. simpl. lra. Qed.
+Lemma quarter_pi_canon : canonp (of_bits 4605249457297304856).
+Proof. split; [reflexivity|]. rewrite quarter_pi_val, Qval, E10val. lra. Qed.
